@@ -18,9 +18,9 @@ for d in "$@"; do
   git -C "$WT" apply "$d/patch.diff"
   suite=$(cd "$WT" && cargo nextest run --workspace --no-fail-fast --offline 2>&1 | grep -E "Summary|error:" | tail -2)
   echo "suite with change: $suite"
-  (cd "$d" && WT="$WT" bash ./demo.sh "$WT" > "$d/confirm-demo-with.log" 2>&1); rc_with=$?
+  (cd "$d" && REPO="$WT" WT="$WT" bash ./demo.sh "$WT" > "$d/confirm-demo-with.log" 2>&1); rc_with=$?
   git -C "$WT" checkout -q -- .
-  (cd "$d" && WT="$WT" bash ./demo.sh "$WT" > "$d/confirm-demo-without.log" 2>&1); rc_without=$?
+  (cd "$d" && REPO="$WT" WT="$WT" bash ./demo.sh "$WT" > "$d/confirm-demo-without.log" 2>&1); rc_without=$?
   echo "demo with change rc=$rc_with ; without rc=$rc_without"
   python3 - "$d" "$name" "$base" "$suite" "$rc_with" "$rc_without" <<'PY'
 import json,sys
